@@ -11,7 +11,7 @@ import pickle
 from .. import nets, ops, oracles, core
 
 PROPERTY = "C30"
-BUDGET = {"quick": 300, "thorough": 8000}
+BUDGET = {"quick": 400, "thorough": 10000}
 LANES = 6      # fork-heavy (isolation oracle): more lanes only add fork contention in this VM
 WALL_CAP = {"quick": 100, "thorough": 1500}
 RULE = ("Episodes = 1-2 nets (feeder/four_bus/case9 with seeded defects: overload, open switches, disconnected "
@@ -27,12 +27,14 @@ ASSUMPTIONS = ["'results depend only on the network and the arguments of that ca
                "an earlier call do not carry over, registered functions are instance configuration and do",
                "the diagnosed net's element AND result tables are compared (diagnostics are documented to work on copies)",
                "results are compared in canonical JSON form; log output is not compared"]
-REACH_PROBES = ["diagnose_after_other_client_registered", "diagnose_after_other_client_options",
+REACH_PROBES = ["real_function_registered", "diagnose_after_other_client_registered", "diagnose_after_other_client_options",
                 "diagnose_after_own_earlier_options", "diagnose_on_nonconverging_net", "isolated_reference_ran"]
 
 OPTION_VALUES = {"overload_scaling_factor": [0.001, 0.5, 0.01], "nominal_voltage_tolerance": [0.3, 0.05],
                  "min_r_ohm": [0.001, 1.0], "max_x_ohm": [100., 0.1], "capacitance_scaling_factor": [0.01, 0.5],
                  "numba_tolerance": [1e-5, 1e-12], "ppsim_unknown_option": [1, 2]}
+REAL_CLASSES = ["ImplausibleImpedanceValues", "NominalVoltagesMismatch", "WrongLineCapacitance", "Overload",
+                "DisconnectedElements", "InvalidValues"]
 DEFECTS = ["overload", "open_switch", "line_off", "tiny_line", "bus_off", "none", "none"]
 
 
@@ -65,29 +67,38 @@ def warm_light():
 
 def generate(rng, idx, tier):
     n_nets = rng.choice([1, 1, 2])
-    cfg = {"n_clients": rng.randint(2, 4), "n_nets": n_nets}
+    # "light" episodes: no client carries the 18 default functions (each diagnose then costs milliseconds instead
+    # of 0.15 s), so many more calls on instances configured from pandapower's own function classes fit in
+    light = rng.random() < 0.5
+    cfg = {"n_clients": rng.randint(2, 4), "n_nets": n_nets, "light": light}
     ol = []
     for n in range(n_nets):
         ol.append({"op": "net", "name": rng.choice(["feeder", "four_bus", "case9", "feeder"]),
                    "defect": rng.choice(DEFECTS), "k": rng.randrange(1000)})
     n_diag = 0
-    for _ in range(rng.randint(6, 16)):
+    max_diag = 14 if light else 8
+    p_real = 0.25 if light else 0.08
+    for _ in range(rng.randint(10, 26) if light else rng.randint(6, 16)):
         c = rng.randrange(cfg["n_clients"])           # client-interleave fault plan
         r = rng.random()
-        if r < 0.2:
-            ol.append({"op": "new", "client": c, "add_default": rng.random() < 0.8})
-        elif r < 0.4:
+        if r < 0.15:
+            ol.append({"op": "new", "client": c, "add_default": False if light else rng.random() < 0.8})
+        elif r < 0.15 + 0.1:
             ol.append({"op": "register", "client": c, "fn": rng.randrange(3),
                        "args": rng.choice([None, None, ["overload_scaling_factor"], []]),
                        "named": rng.random() < 0.5})
-        elif r < 0.9 and n_diag < 8:
+        elif r < 0.25 + p_real:
+            # a fresh object of one of pandapower's own diagnostic function classes
+            ol.append({"op": "register", "client": c, "real": rng.randrange(len(REAL_CLASSES)),
+                       "args": None, "named": rng.random() < 0.5})
+        elif r < 0.92 and n_diag < max_diag:
             n_diag += 1
-            keys = rng.sample(sorted(OPTION_VALUES), rng.randint(0, 3))
+            keys = rng.sample(sorted(OPTION_VALUES), rng.choice([0, 0, 1, 2, 3]))
             ol.append({"op": "diagnose", "client": c, "net": rng.randrange(n_nets),
                        "options": {k: rng.choice(OPTION_VALUES[k]) for k in keys},
                        "report": rng.choice([None, None, "compact"]),
                        # the fresh-process reference costs a fork (0.3-1 s under load in this VM): sampled
-                       "iso": rng.random() < 0.3})
+                       "iso": rng.random() < (0.15 if light else 0.3)})
         else:
             ol.append({"op": "report", "client": c})
     diag = [o for o in ol if o["op"] == "diagnose"]
@@ -160,11 +171,33 @@ class ClientModel:
         self.hist = []
 
 
+def make_function(fn, Probe):
+    """fn: int -> probe function; str -> a fresh object of that pandapower diagnostic function class"""
+    if isinstance(fn, str):
+        import importlib
+        dfm = importlib.import_module("pandapower.diagnostic.diagnostic_functions")
+        return getattr(dfm, fn)()
+    return Probe(fn)
+
+
 def construct(add_default, registrations, Probe):
     from pandapower.diagnostic import Diagnostic
     d = Diagnostic(add_default_functions=add_default)
     for fn, args, name in registrations:
-        d.register_function(Probe(fn), args, name)
+        d.register_function(make_function(fn, Probe), args, name)
+    return d
+
+
+def construct_from_fresh_objects(add_default, registrations, Probe):
+    """the same configuration built through the public API from brand-new function objects (also for the
+    defaults, which are module-level singletons shared by all Diagnostic instances)"""
+    from pandapower.diagnostic import Diagnostic
+    d = Diagnostic(add_default_functions=False)
+    if add_default:
+        for name, f, args in PRISTINE["functions"]:
+            d.register_function(type(f)(), args, name)
+    for fn, args, name in registrations:
+        d.register_function(make_function(fn, Probe), args, name)
     return d
 
 
@@ -229,7 +262,7 @@ def execute(ep, ctx):
             continue
         c = op["client"]
         if k == "new" or c not in clients:
-            add_default = op.get("add_default", True)
+            add_default = op.get("add_default", not ctx.ep["cfg"].get("light", False))
             from pandapower.diagnostic import Diagnostic
             clients[c] = Diagnostic(add_default_functions=add_default)
             models[c] = ClientModel(add_default, default_names, PRISTINE_KW)
@@ -241,13 +274,17 @@ def execute(ep, ctx):
                 continue
         d, m = clients[c], models[c]
         if k == "register":
-            name = f"probe{op['fn']}_{len(m.registrations)}" if op["named"] else None
-            d.register_function(Probe(op["fn"]), op["args"], name)
-            m.registrations.append((op["fn"], op["args"], name))
-            m.functions.append(name or "ProbeFunction")
+            fn = REAL_CLASSES[op["real"] % len(REAL_CLASSES)] if "real" in op else op["fn"]
+            name = f"fn{fn}_{len(m.registrations)}" if op["named"] else None
+            fobj = make_function(fn, Probe)
+            d.register_function(fobj, op["args"], name)
+            m.registrations.append((fn, op["args"], name))
+            m.functions.append(name or type(fobj).__name__)
+            if isinstance(fn, str):
+                ctx.probe("real_function_registered")
             m.hist.append("register")
             global_hist.append((c, "register"))
-            ctx.event("register", c, op["fn"], op["args"], name)
+            ctx.event("register", c, fn, op["args"], name)
         elif k == "report":
             try:
                 d.report()
@@ -308,7 +345,8 @@ def _exec_diagnose(d, m, c, net, op, i, ctx, global_hist, Probe):
         for name, val in res.items():
             if isinstance(val, dict) and "tag" in val and "kwargs" in val:
                 # functions registered under the same name share one result key: the last one wins
-                reg = next((r for r in reversed(m.registrations) if (r[2] or "ProbeFunction") == name), None)
+                reg = next((r for r in reversed(m.registrations)
+                            if not isinstance(r[0], str) and (r[2] or "ProbeFunction") == name), None)
                 if reg is None:
                     continue
                 fn, args, _ = reg
@@ -322,6 +360,22 @@ def _exec_diagnose(d, m, c, net, op, i, ctx, global_hist, Probe):
                     ctx.violation(f"C30|model|kwargs leaked from {origin}",
                                   f"op{i}: probe function {name} received {got}, call arguments+defaults are "
                                   f"{want}; differing keys {leaked}", op=i)
+    # (2b) the same configuration rebuilt from brand-new function objects, same call, in this process:
+    # catches state kept in Diagnostic instances or in (shared) diagnostic function objects
+    try:
+        ref_d = construct_from_fresh_objects(m.add_default, list(m.registrations), Probe)
+        rres = ref_d.diagnose_network(copy.deepcopy(net_before), report_style=None, **{**m.base_kwargs, **options})
+        fresh = {"result": oracles.canon(rres), "errors": sorted(ref_d.diag_errors)}
+    except Exception as e:
+        fresh = {"raised": type(e).__name__}
+    if oracles.canon(live) != oracles.canon(fresh):
+        lk, fk = set(live.get("result") or {}), set(fresh.get("result") or {})
+        diffkeys = sorted(lk ^ fk) or sorted(k for k in lk if live["result"][k] != fresh["result"][k]) or \
+            ["errors" if live.get("errors") != fresh.get("errors") else "raised"]
+        ctx.violation("C30|fresh-objects|result depends on earlier calls",
+                      f"op{i}: diagnose_network({options}) on this instance vs the same configuration built from "
+                      f"new function objects: differing keys {diffkeys[:5]}; errors {live.get('errors')} vs "
+                      f"{fresh.get('errors')}", op=i)
     # (3) isolation: same call, only call, fresh process (sampled by the plan)
     hist_self = "/".join(m.hist[-3:]) or "-"
     hist_other = "/".join(sorted({w for cc, w in global_hist if cc != c})) or "-"
